@@ -51,23 +51,27 @@ def holds (env : Env) (sc : Scenario) (obs : List Obs) : Bool :=
 
 open Parser
 
-/-- the grammar side: `METHOD SP target SP version (CRLF line)*` -/
+/-- the grammar side: `METHOD SP target SP version (CRLF line)*`.  A header line has the form
+    `name: value` when it is `Parser.HdrLine`: `l = name ++ ":" ++ value`, no colon in the name (the
+    colon shown is the first one) and the name is not blank (some byte of it is not white space;
+    `Parser.hdrLineB` is the executable form).  A line such as `: v` or `  : v` is NOT of that
+    form and makes the head unacceptable (`blank_name_rejected`). -/
 def render (m t v : Bytes) (hs : List Bytes) : Bytes :=
   m ++ [SP] ++ t ++ [SP] ++ v ++ hs.flatMap (fun l => CRLF ++ l)
 
 /-- side conditions of the grammar, as one executable predicate -/
 def wellFormedB (env : Env) (m t v : Bytes) (hs : List Bytes) : Bool :=
   (methodCode m).isSome && (v == HTTP10 || v == HTTP11) && !t.contains SP && !isInfixB CRLF t &&
-  (env.url t).isSome && hs.all (fun l => l.contains COLON && !isInfixB CRLF l)
+  (env.url t).isSome && hs.all (fun l => hdrLineB l && !isInfixB CRLF l)
 
 theorem wellFormedB_iff (env : Env) (m t v : Bytes) (hs : List Bytes) :
     wellFormedB env m t v hs = true ↔
       methodCode m ≠ none ∧ (v = HTTP10 ∨ v = HTTP11) ∧ SP ∉ t ∧ ¬ CRLF <:+: t ∧
-      (env.url t).isSome ∧ (∀ l ∈ hs, COLON ∈ l ∧ ¬ CRLF <:+: l) := by
+      (env.url t).isSome ∧ (∀ l ∈ hs, HdrLine l ∧ ¬ CRLF <:+: l) := by
   have hi : ∀ xs : Bytes, (!isInfixB CRLF xs) = true ↔ ¬ CRLF <:+: xs := fun xs => by
     rw [← isInfixB_iff]; simp
   simp only [wellFormedB, Bool.and_eq_true, Bool.or_eq_true, beq_iff_eq, hi, List.all_eq_true,
-    List.contains_iff_mem, Bool.not_eq_true', ← Option.isSome_iff_ne_none]
+    hdrLineB_iff, Bool.not_eq_true', ← Option.isSome_iff_ne_none]
   constructor
   · rintro ⟨⟨⟨⟨⟨h1, h2⟩, h3⟩, h4⟩, h5⟩, h6⟩
     refine ⟨h1, h2, ?_, h4, h5, h6⟩
@@ -87,11 +91,12 @@ theorem render_eq_joinWith (m t v : Bytes) (hs : List Bytes) :
 /-- Exact characterisation of the parser model, independent of the URL oracle:
     `parseRequestHeaders` succeeds with `rh` iff the input is a rendering of a method token
     with code `rh.method`, the target `rh.rawPath`, one of the two versions and header lines
-    each containing a colon, and `rh.headers` is the fold of the lines. -/
+    each of the form `name: value` (`Parser.HdrLine`: a colon, and a name before the first colon
+    that is not blank), and `rh.headers` is the fold of the lines. -/
 theorem parse_eq_some_iff (head : Bytes) (rh : Parser.ReqHead) :
     Parser.parseRequestHeaders head = some rh ↔
       ∃ m v hs, methodCode m = some rh.method ∧ (v = HTTP10 ∨ v = HTTP11) ∧
-        SP ∉ rh.rawPath ∧ ¬ CRLF <:+: rh.rawPath ∧ (∀ l ∈ hs, COLON ∈ l ∧ ¬ CRLF <:+: l) ∧
+        SP ∉ rh.rawPath ∧ ¬ CRLF <:+: rh.rawPath ∧ (∀ l ∈ hs, HdrLine l ∧ ¬ CRLF <:+: l) ∧
         rh.headers = hs.foldl insertLine [] ∧ head = render m rh.rawPath v hs := by
   rw [Parser.parseRequestHeaders_eq_some_iff]
   constructor
@@ -101,7 +106,7 @@ theorem parse_eq_some_iff (head : Bytes) (rh : Parser.ReqHead) :
     split at hpl
     · rename_i hcol
       have hhd := (Option.some.inj hpl).symm
-      refine ⟨p0, p2, hs, hc, hv, h1, ?_, fun l hl' => ⟨hcol l hl', hl l hl'⟩, hhd,
+      refine ⟨p0, p2, hs, hc, hv, h1, ?_, fun l hl' => ⟨(hdrLineB_iff l).1 (hcol l hl'), hl l hl'⟩, hhd,
         (render_eq_joinWith _ _ _ _).symm⟩
       · intro c
         apply hf
@@ -114,7 +119,7 @@ theorem parse_eq_some_iff (head : Bytes) (rh : Parser.ReqHead) :
     rw [Parser.parseHeaders_eq_some_iff]
     refine ⟨hs, (Parser.method_no_SP_CR hm).1, h1, Parser.requestLine_no_CRLF hm hv h2,
       fun l hl' => (hl l hl').2, ?_, render_eq_joinWith _ _ _ _⟩
-    rw [Parser.parseHeaderList_eq, if_pos (fun l hl' => (hl l hl').1), hh]
+    rw [Parser.parseHeaderList_eq, if_pos (fun l hl' => (hdrLineB_iff l).2 (hl l hl').1), hh]
 
 theorem expect_eq_some_iff (env : Env) (head : Bytes) (s : Snap) :
     expect env head = some s ↔
@@ -142,15 +147,16 @@ theorem expect_eq_some_iff (env : Env) (head : Bytes) (s : Snap) :
 
 /-- **C01, acceptance.**  A request head is accepted iff it is
     `METHOD SP target SP HTTP/1.0|HTTP/1.1 (CRLF line)*` with one of the eight method tokens,
-    a target without space and without CRLF that the URL oracle accepts, and every line
-    containing a colon (and no CRLF, i.e. the lines are exactly the CRLF-separated pieces).
+    a target without space and without CRLF that the URL oracle accepts, and every line of the
+    form `name: value` — `Parser.HdrLine`: `name ++ ":" ++ value` with a colon-free name that is not
+    blank — (and no CRLF, i.e. the lines are exactly the CRLF-separated pieces).
     `→` is "nothing else is ever accepted".  The statement is true exactly as proposed: the
     target may be empty iff the oracle accepts the empty string, the version must be the exact
     8 bytes (a trailing CR or space is rejected). -/
 theorem accept_iff (env : Env) (head : Bytes) :
     (expect env head).isSome ↔
       ∃ m t v hs, methodCode m ≠ none ∧ (v = HTTP10 ∨ v = HTTP11) ∧ SP ∉ t ∧ ¬ CRLF <:+: t ∧
-        (env.url t).isSome ∧ (∀ l ∈ hs, COLON ∈ l ∧ ¬ CRLF <:+: l) ∧ head = render m t v hs := by
+        (env.url t).isSome ∧ (∀ l ∈ hs, HdrLine l ∧ ¬ CRLF <:+: l) ∧ head = render m t v hs := by
   constructor
   · intro h
     obtain ⟨s, hs⟩ := Option.isSome_iff_exists.1 h
@@ -205,6 +211,42 @@ theorem render_unique {m t v : Bytes} {hs : List Bytes} {m' t' v' : Bytes} {hs' 
   simp only [List.cons.injEq, and_true] at a1
   exact ⟨a1.1.symm, a1.2.1.symm, a1.2.2.symm, eh.symm⟩
 
+/-- the cut of a header line at its first colon is unique -/
+theorem first_colon_unique {n x n' x' : Bytes} (hn : COLON ∉ n) (hn' : COLON ∉ n')
+    (e : n ++ [COLON] ++ x = n' ++ [COLON] ++ x') : n = n' ∧ x = x' := by
+  have a := breakOn_singleton x hn
+  have b := breakOn_singleton x' hn'
+  rw [e, b] at a
+  simp only [Option.some.injEq, Prod.mk.injEq] at a
+  exact ⟨a.1.symm, a.2.symm⟩
+
+/-- a line whose name part (before the first colon) is blank is not of the form `name: value` -/
+theorem not_hdrLine_of_blank {n x : Bytes} (hn : COLON ∉ n) (hb : Blank n) :
+    ¬ HdrLine (n ++ [COLON] ++ x) := by
+  rintro ⟨n', x', e, hn', hc⟩
+  obtain ⟨rfl, _⟩ := first_colon_unique hn hn' e
+  exact (not_blank_iff n).2 hc hb
+
+/-- **C01, blank header names are refused.**  A head that is otherwise a rendering of the grammar
+    (`METHOD SP target SP version (CRLF line)*`, method token, version, target without space, no
+    CRLF inside the pieces — no assumption on the other lines) but has ONE line whose name part,
+    i.e. what stands before its first colon, is empty or white space only (`: v`, ` \t: v`), is
+    not accepted, whatever the URL oracle says.  (Until the repair of the parser such a line
+    was accepted and entered the header map under the empty name.) -/
+theorem blank_name_rejected (env : Env) (m t v : Bytes) (hs : List Bytes)
+    (hm : methodCode m ≠ none) (hv : v = HTTP10 ∨ v = HTTP11) (h1 : SP ∉ t) (h2 : ¬ CRLF <:+: t)
+    (hl : ∀ l ∈ hs, ¬ CRLF <:+: l)
+    (n x : Bytes) (hmem : n ++ [COLON] ++ x ∈ hs) (hn : COLON ∉ n) (hb : Blank n) :
+    expect env (render m t v hs) = none := by
+  cases he : expect env (render m t v hs) with
+  | none => rfl
+  | some s =>
+    exfalso
+    have hsome : (expect env (render m t v hs)).isSome := by rw [he]; rfl
+    obtain ⟨m', t', v', hs', hm', hv', h1', h2', _, hl', e⟩ := (accept_iff env _).1 hsome
+    obtain ⟨_, _, _, rfl⟩ := render_unique hm hv h1 h2 hl hm' hv' h1' h2' (fun l h => (hl' l h).2) e
+    exact not_hdrLine_of_blank hn hb (hl' _ hmem).1
+
 /-- the accepted method tokens are exactly the eight upper-case literals … -/
 theorem method_tokens (m : Bytes) :
     methodCode m ≠ none ↔
@@ -226,7 +268,7 @@ theorem method_codes :
     first. -/
 theorem fields_exact (env : Env) (m t v : Bytes) (hs : List Bytes)
     (hm : methodCode m ≠ none) (hv : v = HTTP10 ∨ v = HTTP11) (h1 : SP ∉ t)
-    (h2 : ¬ CRLF <:+: t) (hu : (env.url t).isSome) (hl : ∀ l ∈ hs, COLON ∈ l ∧ ¬ CRLF <:+: l) :
+    (h2 : ¬ CRLF <:+: t) (hu : (env.url t).isSome) (hl : ∀ l ∈ hs, HdrLine l ∧ ¬ CRLF <:+: l) :
     ∃ s c p q, expect env (render m t v hs) = some s ∧ methodCode m = some c ∧
       env.url t = some (p, q) ∧
       s.parsed = true ∧ s.method = c ∧ s.rawPath = t ∧ s.path = p ∧
@@ -277,7 +319,7 @@ theorem content_length_numeral (env : Env) (head : Bytes) (s : Snap)
 /-- `content_length` in terms of the lines the client sent -/
 theorem content_length_lines (env : Env) (m t v : Bytes) (hs : List Bytes) (s : Snap)
     (hm : methodCode m ≠ none) (hv : v = HTTP10 ∨ v = HTTP11) (h1 : SP ∉ t)
-    (h2 : ¬ CRLF <:+: t) (hl : ∀ l ∈ hs, COLON ∈ l ∧ ¬ CRLF <:+: l)
+    (h2 : ¬ CRLF <:+: t) (hl : ∀ l ∈ hs, HdrLine l ∧ ¬ CRLF <:+: l)
     (h : expect env (render m t v hs) = some s) :
     s.total = match hs.reverse.filterMap (lineValue Sock.CONTENT_LENGTH) with
               | [] => -1
@@ -345,6 +387,26 @@ example : (expect envT sampleHead).map (fun s => HeaderMap.values (str "X-TAG") 
 example : expect envT (str "GET / HTTP/1.2\r\nHost: x") = none := by decide +kernel
 example : expect envT (str "get / HTTP/1.1\r\nHost: x") = none := by decide +kernel
 example : expect envT (str "GET / HTTP/1.1\r\nHost x") = none := by decide +kernel
+/-- a header line with an empty or blank name is not of the form `name: value` (these two were
+    accepted before the repair of `Parser::parseHeaderList`; `blank_name_rejected`) -/
+example : expect envT (str "GET / HTTP/1.1\r\n: v") = none := by decide +kernel
+example : expect envT (str "GET / HTTP/1.1\r\nHost: x\r\n \t : v\r\nA: b") = none := by decide +kernel
+example : hdrLineB (str ": v") = false ∧ hdrLineB (str " \t : v") = false ∧ hdrLineB (str "::") = false ∧
+    hdrLineB (str " a :") = true ∧ hdrLineB (str "a") = false := by decide
+/-- the hypotheses of `blank_name_rejected` on the second of them -/
+example : methodCode Parser.GET ≠ none ∧ SP ∉ str "/" ∧ ¬ CRLF <:+: str "/" ∧
+    (∀ l ∈ [str "Host: x", str " \t : v", str "A: b"], ¬ CRLF <:+: l) ∧
+    str " \t " ++ [COLON] ++ str " v" ∈ [str "Host: x", str " \t : v", str "A: b"] ∧
+    COLON ∉ str " \t " ∧ Blank (str " \t ") ∧
+    str "GET / HTTP/1.1\r\nHost: x\r\n \t : v\r\nA: b" =
+      render Parser.GET (str "/") HTTP11 [str "Host: x", str " \t : v", str "A: b"] := by
+  have hi : ∀ xs : Bytes, isInfixB CRLF xs = false → ¬ CRLF <:+: xs := fun xs h c => by
+    rw [isInfixB_iff.2 c] at h; cases h
+  refine ⟨by decide, by decide, hi _ (by decide +kernel), ?_, by decide +kernel, by decide,
+    by decide, by decide +kernel⟩
+  intro l hl
+  simp only [List.mem_cons, List.not_mem_nil, or_false] at hl
+  rcases hl with rfl | rfl | rfl <;> exact hi _ (by decide +kernel)
 example : expect envT (str "GET / x HTTP/1.1\r\nHost: x") = none := by decide +kernel
 example : expect envT (str "GET / HTTP/1.1\r") = none := by decide +kernel
 example : expect envT (str "GET / HTTP/1.1\r\n") = none := by decide +kernel
